@@ -308,6 +308,68 @@ def gen_converge_case(r, quick, edge, nlo=6, nhi=16, m=(10, 50)):
     return ops, p
 
 
+def gen_planted_case(r, quick, edge):
+    """planted wrong guesses (constructive, then randomised): linear kernel on two features.
+    movers     (+-1, 0): the only violating pairs at the cold start; solving them moves w = sum x_b alpha_b to (w1, 0);
+    victims    (-+t, 0), t >= 2, at a bound with a gradient just beyond the cold-start thresholds (shrunk by the first
+               shrink()), which the movers' steps push far to the other side (lin + t*w1): KKT violators while shrunk;
+    bystanders (0, u) at a bound, gradients spread between the cold-start thresholds and the victims' final gradients:
+               also shrunk at the start; after the un-shrink the victims' gradients are the thresholds that decide
+               whether a bystander may be removed again;
+    fillers    free or bounded variables with small gradients (random; they perturb the plan).
+    Then: shrink(tiny) at (or right after) the cold start, solver-selected steps until the active sub-problem is
+    (nearly) solved, shrink(eps) / solve(eps) -> the one automatic un-shrink with wrongly shrunk variables present."""
+    kind = r.choice(["svm", "svm", "box"])
+    strat = r.choice(["mvp", "libsvm"]) if kind == "svm" else "maxgain"
+    B = r.choice([0.25, 1.0, 4.0, 16.0])
+    w1 = min(2 * B, 1.0)
+    pts = []      # (x, lin, L, U)
+    for _ in range(r.range(1, 2)):
+        pts.append(((1.0, 0.0), 1.0, 0.0, B)); pts.append(((-1.0, 0.0), -1.0, -B, 0.0))
+    top = 0.0
+    for _ in range(r.range(1, 3)):              # victims
+        t = r.choice([2.0, 4.0, 8.0]); dl = r.choice([0.25, 0.5, 1.0, 2.0]); W = r.choice([0.5, 1.0, 4.0])
+        if r.chance(1, 2):   # at its lower bound, shrunk because g = -1-dl < smallestDown; ends at -1-dl+t*w1
+            pts.append(((-t, 0.0), -1.0 - dl, 0.0, W)); top = max(top, -1.0 - dl + t * w1)
+        else:                # at its upper bound, shrunk because g = 1+dl > largestUp; ends at 1+dl-t*w1
+            pts.append(((t, 0.0), 1.0 + dl, -W, 0.0)); top = max(top, -(1.0 + dl - t * w1))
+    span = int(max(top, 1.0) * 4) + 4
+    for _ in range(r.range(2, 6)):              # bystanders
+        u = r.choice([0.0, 0.0, 1.0, -1.0]); W = r.choice([0.5, 1.0, 4.0])
+        gc = 1.0 + r.range(1, span) / 4.0
+        if r.chance(1, 2): pts.append(((0.0, u), gc, -W, 0.0))       # at its upper bound, g > largestUp
+        else: pts.append(((0.0, u), -gc, 0.0, W))                     # at its lower bound, g < smallestDown
+    for _ in range(r.range(0, 3)):              # fillers
+        u = r.choice([1.0, -1.0, 2.0]); W = r.choice([0.5, 1.0, 4.0])
+        c = r.below(3)
+        pts.append(((0.0, u), dyadic(r, -1, 1), (-W, 0.0, -W)[c], (W, W, 0.0)[c]))
+    order = list(range(len(pts)))
+    for k in range(len(order) - 1, 0, -1):      # Fisher-Yates with the check's generator
+        j = r.below(k + 1); order[k], order[j] = order[j], order[k]
+    pts = [pts[k] for k in order]
+    n = len(pts)
+    ridge = r.choice([0.0, 0.0, 0.0, 0.25])
+    K = [[pts[i][0][0] * pts[j][0][0] + pts[i][0][1] * pts[j][0][1] + (ridge if i == j else 0.0) for j in range(n)] for i in range(n)]
+    p = dict(kind=kind, n=n, shrink=1, K=K, lin=[q[1] for q in pts], L=[q[2] for q in pts], U=[q[3] for q in pts],
+             a0=[0.0] * n, style="planted", box="planted", warm=False)
+    tiny = 2.0 ** -30
+    ops = [new_line(p, edge)]
+    if r.chance(1, 4): ops.append(f"ssmo {strat}")
+    ops.append(f"shrink {tok(tiny)}" if r.chance(3, 4) else f"solve {strat} {tok(tiny)} 1")
+    eps = r.choice([2.0 ** -4, 0.25, 1.0, 4.0])
+    direct = r.chance(1, 2)
+    # directly: steps, then shrink(eps); from inside the solver: QpSolver::solve does step, shrink(eps), steps
+    for _ in range(r.range(1, 8) if direct else r.range(0, 2)):
+        ops.append(f"ssmo {strat}" if not r.chance(1, 10) else f"asmo {r.below(64)} {r.below(64)}")
+    ops.append(f"shrink {tok(eps)}" if direct else f"solve {strat} {tok(eps)} {r.range(1, 4)}")
+    for _ in range(r.range(0, 5)):
+        ops.append(f"ssmo {strat}")
+    ops.append(f"shrink {tok(r.choice([tiny, eps]))}")
+    if r.chance(1, 2):
+        ops.append(f"solve {strat} {tok(r.choice([2.0 ** -10, 2.0 ** -3, 1e-3]))} {300 if quick else 3000}")
+    return ops, p
+
+
 def gen_schedule_case(r, quick, edge):
     """the solver's own loop with a denser shrinking schedule: `period` solver-selected steps, shrink(eps), ... -- the
     un-shrink fires by itself when the active sub-problem is solved to 10*eps, as in QpSolver::solve on large problems
@@ -456,9 +518,14 @@ def correspond(ctx, name, cases, hcmd, dcmd, max_report=4):
         results = list(ex.map(lambda c: run_case(ctx, hcmd, dcmd, c, timeout=300), cases))
     failing = [(c, r) for c, r in zip(cases, results) if not r.ok] or [(all_ops, big)]
     ctx.log(f"{name}: {len(failing)} of {len(cases)} cases FAIL")
-    seen = set()
+    seen, seen0 = set(), set()
+    # failing inputs confirmed by the property oracle / a sanitizer first, short ones first; one minimisation per kind of failure
+    failing.sort(key=lambda cr: (not (cr[1].oracle or cr[1].crash), len(cr[0])))
     for c, r in failing:
         key0 = classify(c, r)[0]
+        if key0 in seen0:
+            continue
+        seen0.add(key0)
         def fails(ops):
             rr = run_case(ctx, hcmd, dcmd, ops, timeout=120)
             return (not rr.ok) and classify(ops, rr)[0] == key0
@@ -537,9 +604,10 @@ def run(ctx):
     corpus = load_corpus(edge)
     ctx.cov["corpus_cases"] = len(corpus)
     cases = []
-    nfam = dict(random=ncase, history=ncase // 2, converge=2 * ncase, schedule=ncase // 2)
-    gens = dict(random=gen_case, history=gen_history_case, converge=gen_converge_case, schedule=gen_schedule_case)
-    for fam in ("random", "history", "converge", "schedule"):
+    nfam = dict(random=ncase, planted=ncase, history=ncase // 3, converge=ncase, schedule=ncase // 4)
+    gens = dict(random=gen_case, planted=gen_planted_case, history=gen_history_case, converge=gen_converge_case,
+                schedule=gen_schedule_case)
+    for fam in ("random", "planted", "history", "converge", "schedule"):
       for _ in range(nfam[fam]):
         ops, p = gens[fam](r, ctx.quick, edge)
         cases.append(ops)
@@ -568,8 +636,8 @@ def run(ctx):
     # formerly active variables alone would have removed a different set of variables -- both problem kinds, called
     # directly and from inside QpSolver::solve
     reached = ctx.cov.get(f"reached[{variants[0][0]},cacheRows={variants[0][1]}]", {})
-    for key, least in (("unshrink_discriminating_svm", 3), ("unshrink_discriminating_box", 3),
-                       ("unshrink_discriminating_in_solve", 1), ("shrink_after_flag_set", 10), ("shrunk_became_violator", 10)):
+    for key, least in (("unshrink_discriminating_svm", 10), ("unshrink_discriminating_box", 5),
+                       ("unshrink_discriminating_in_solve", 3), ("shrink_after_flag_set", 10), ("shrunk_became_violator", 10)):
         if reached and reached.get(key, 0) < least:
             ctx.broken("coverage", f"shrink-history:{key}", f"the generated histories reached {key} only {reached.get(key, 0)} times (< {least})")
     ctx.sample({"theorems": "see obligation_names"})
